@@ -209,14 +209,18 @@ Theorem C20_criteria_of_query : forall q c, In c (criteria_of q) <->
 Proof. exact criteria_of_spec. Qed.
 Print Assumptions C20_criteria_of_query.
 
-(* Observers of the lookup resources: whenever the set of listed registrations changes (registration, re-registration, removal,
-   expiry) the change callbacks run at least once during that step. PARTIAL: a change of what the lookups show WITHOUT a change
-   of the set is announced only if lt, base or a parameter changed (by definition of notify_count / actual_change); a PUT that
-   replaces only the links is not announced — open finding, witness C20_put_links_not_notified_refuted below. *)
-Theorem C20_listing_changes_are_notified_partial : forall st o st' r, reachable st -> nonneg_time o -> step st o = (st', r) ->
+(* Observers of the lookup resources (the change callbacks of register_change_callback): whenever a request or the passage of
+   time changes what the endpoint lookup or the resource lookup shows, the callbacks run at least once during that step
+   (full strength since 3b8673f: a PUT that replaces only the links is announced too) *)
+Theorem C20_lookup_changes_are_notified : forall st o st' r, reachable st -> nonneg_time o -> step st o = (st', r) ->
+  (ep_lookup st' [] None <> ep_lookup st [] None \/ res_lookup st' [] None <> res_lookup st [] None) -> notify_count st o <> 0.
+Proof. exact lookup_changes_notified_reachable. Qed.
+Print Assumptions C20_lookup_changes_are_notified.
+(* in particular every change of the set of listed registrations — registration, re-registration, removal, expiry *)
+Theorem C20_listing_changes_are_notified : forall st o st' r, reachable st -> nonneg_time o -> step st o = (st', r) ->
   by_key st' <> by_key st -> 0 < notify_count st o.
 Proof. exact listing_changes_notified_reachable. Qed.
-Print Assumptions C20_listing_changes_are_notified_partial.
+Print Assumptions C20_listing_changes_are_notified.
 
 (* ---- non-vacuity and witnesses (all by computation) *)
 Definition lf (ls : list link) : body := {| b_cf := Some 40; b_payload := PLinks ls |}.
@@ -273,13 +277,14 @@ Example C20_multi_criteria_lookup :
   ep_lookup st ["ep=a"; "ep=b"]%string None = Content ""%string.
 Proof. vm_compute. repeat split. Qed.
 
-(* open finding C20:lookup-observers-not-notified:put-links, as the code behaves: the PUT changes what the resource lookup shows,
-   is answered 2.04, and no change callback runs; the same PUT with a changed parameter is announced *)
-Example C20_put_links_not_notified_refuted :
+(* a PUT that replaces only the links is answered 2.04, changes what the resource lookup shows and is announced once (fixed in
+   /repo by 3b8673f); with a changed parameter as well it is announced twice; registration 1, re-registration 2, removal 1 *)
+Example C20_put_links_notified :
   let st := run_state empty_rd [Register h1 ["ep=a"]%string (lf [{| l_href := "/s1"; l_attrs := [] |}])] in
   let o := UpdatePut ["1"; ""]%string h1 [] (lf [{| l_href := "/s2"; l_attrs := [] |}]) in
   snd (step st o) = Changed /\ res_lookup st [] None = Content "<coap://h1/s1>"%string /\
-  res_lookup (fst (step st o)) [] None = Content "<coap://h1/s2>"%string /\ notify_count st o = 0 /\
-  notify_count st (UpdatePut ["1"; ""]%string h1 ["et=x"]%string (lf [{| l_href := "/s2"; l_attrs := [] |}])) = 1 /\
+  res_lookup (fst (step st o)) [] None = Content "<coap://h1/s2>"%string /\ notify_count st o = 1 /\
+  notify_count st (UpdatePut ["1"; ""]%string h1 ["et=x"]%string (lf [{| l_href := "/s2"; l_attrs := [] |}])) = 2 /\
+  notify_count st (UpdatePost ["1"; ""]%string h1 [] nobody) = 0 /\
   run_notified empty_rd [Register h1 ["ep=a"]%string (lf []); Register h1 ["ep=a"]%string (lf []); Delete ["1"; ""]%string] = [1; 2; 1].
 Proof. vm_compute. repeat split. Qed.
